@@ -1,4 +1,5 @@
-(* C02, Maven part: ordering agrees with ComparableVersion (Maven 3.6 algorithm, Spec/MavenSpec.v).
+(* C02, Maven part: ordering agrees with ComparableVersion (maven-artifact 3.8.x, Spec/MavenSpec.v; on D_mvn the same
+   as the 3.6 algorithm maven.go names).
    Statements only.  The model follows the tree through two booleans read by gotables from
    maven.go; z below is the variant of the zero test of the trimming loop (false:
    isEmptyMavenElem tests the spelling "0", as found; true: every all-zero numeral is empty,
@@ -38,6 +39,20 @@ Theorem C02_maven_zero_tree :
   mspec_compare s_1_00 s_1 = 0.
 Proof. exact maven_zero_tree. Qed.
 Print Assumptions C02_maven_zero_tree.
+
+(* F-C02-24: a qualifier attached by '.' (JBoss/Spring style 1.0.0.RC1, 1.SP, 2.0.jre2) is inside
+   the grammar of the property but outside D_mvn.  ComparableVersion (3.8.x) opens a sub-list for
+   such a qualifier exactly as for '-', so zeros before it are trimmed and 1.SP = 1.0-SP; the
+   library keeps the '.' on the element, does not trim before it and orders '.'-attached and
+   '-'-attached qualifiers apart.  The model of the library's comparison (both variants of the
+   zero test) differs from the specification on: 1.SP vs 1.0-SP (-1 / 0), 2.0.jre2 vs 2.0.0-jre2
+   (1 / 0), 10.0.0.0.Beta7 vs 10-CR (1 / -1). *)
+Theorem C02_maven_dotted_refuted : forall z,
+  (mvn_cmp_strings z s_1_SP s_1_0_SP = Some (-1) /\ mspec_compare s_1_SP s_1_0_SP = 0) /\
+  (mvn_cmp_strings z s_2_0_jre2 s_2_0_0_jre2 = Some 1 /\ mspec_compare s_2_0_jre2 s_2_0_0_jre2 = 0) /\
+  (mvn_cmp_strings z s_10_Beta7 s_10_CR = Some 1 /\ mspec_compare s_10_Beta7 s_10_CR = -1).
+Proof. exact maven_dotted_witness. Qed.
+Print Assumptions C02_maven_dotted_refuted.
 
 (* What holds, for ALL element lists of the domain c02_wide_b (the proved domain d_mvn_wide of
    C01 -- which contains D_mvn -- with numerals not negative, the last prefix numeral not 0 by
